@@ -8,7 +8,12 @@ SMI_SYMBOLS = ['internet', 'directory', 'mgmt', 'experimental', 'private', 'ente
                'TimeTicks', 'Opaque']
 SMI_RENAMES = {'NetworkAddress': 'IpAddress', 'Counter': 'Counter32', 'Gauge': 'Gauge32'}
 MIB1158_SPECIAL = {'nullSpecific': ('SNMPv2-SMI', 'zeroDotZero'), 'ipRoutingTable': ('RFC1213-MIB', 'ipRouteTable'),
-                   'snmpEnableAuthTraps': ('SNMPv2-MIB', 'snmpEnableAuthenTraps')}
+                   'snmpEnableAuthTraps': ('SNMPv2-MIB', 'snmpEnableAuthenTraps'),
+                   'ipAdEntReasmMaxSiz': ('IP-MIB', 'ipAdEntReasmMaxSize')}
+# (the symbol list is the union of what the two RFCs define; checked against the RFC1213-MIB / RFC1158-MIB modules pysnmp ships)
+ONLY_1158 = set(MIB1158_SPECIAL) | set(['snmpInBadTypes', 'snmpOutReadOnlys'])
+ONLY_1213 = set(['PhysAddress', 'ipRouteInfo', 'ipRouteMetric5', 'ipRouteTable', 'ipRoutingDiscards', 'ipAdEntReasmMaxSize'])
+NO_V2_HOME = set(['snmpInBadTypes', 'snmpOutReadOnlys'])   # dropped by RFC 1213, never taken over by SNMPv2-MIB
 
 
 def expected_home(v1mod, sym):
@@ -24,6 +29,8 @@ def expected_home(v1mod, sym):
     if v1mod in ('RFC1213-MIB', 'RFC1158-MIB'):
         if v1mod == 'RFC1158-MIB' and sym in MIB1158_SPECIAL:
             return MIB1158_SPECIAL[sym]
+        if sym in NO_V2_HOME:
+            return None
         if sym in ('mib-2', 'transmission'):
             return ('SNMPv2-SMI', sym)
         if sym in ('DisplayString', 'PhysAddress'):
